@@ -82,6 +82,22 @@ def add_duplicates(rng, case):
                 out.append(Stmt("", "rec", list(st.args), dict(st.kw)))
                 expect[st.uid()] = ("sink2", gname)
         case.graphs[gname] = out
+    if rng.random() < 0.5:
+        # side-effecting nodes with neither a time-series input nor an output (heartbeats), wired twice with EQUAL scalars and
+        # once with different ones: every wiring stays its own node
+        u = 1 + max([s.uid() or 0 for g in case.graphs.values() for s in g] + [0])
+        g = rng.choice([gn for gn in case.graphs if gn == "main" or gn.startswith("sub")])
+        per, cnt = rng.choice([1, 2, 3]), rng.choice([2, 3])
+        beacons = [S("", "beacon", uid=u, period=per, count=cnt), S("", "beacon", uid=u, period=per, count=cnt),
+                   S("", "beacon", uid=u + 1, period=per + 1, count=cnt)]
+        sts = case.graphs[g]
+        ret = [st for st in sts if st.op == "RET"]
+        body = [st for st in sts if st.op != "RET"]
+        for b in beacons:
+            body.insert(rng.randrange(len(body) + 1), b)
+        case.graphs[g] = body + ret
+        expect[u] = ("sink2", g)
+        case.meta["beacons"] = 1
     return expect
 
 
